@@ -329,6 +329,19 @@ class Lib:
         return RNG_T(cb)
 
 
+def varying_filler(i, n):
+    """answer of a scripted random source once its script is used up / its horizon is passed: deterministic, but different for every
+    request index - with a constant answer a correct rejection sampler that happens to reject that constant would spin forever, and the
+    harness, not the library, would be the reason for the hang"""
+    import hashlib
+    out = b""
+    k = 0
+    while len(out) < n:
+        out += hashlib.sha256(b"filler:%d:%d" % (i, k)).digest()
+        k += 1
+    return out[:n]
+
+
 class CounterRng:
     """Deterministic byte stream: SHA-256 in counter mode from a seed. Also records request lengths."""
 
